@@ -90,6 +90,8 @@ def scenario(rng, nops, ndocs):
             if c < .7:
                 k += 1; text = BASE.replace("helper(t, 1);\n", "helper(t, 1);\n" + marker_line(k, False)) if rng.random() < .8 else "// doc %d\n" % k + BASE
                 if big and rng.random() < .5: text = filler + text
+                others = [docs[x] for x in uris if x != u and docs.get(x) is not None]
+                if others and rng.random() < .2: text = rng.choice(others)        # a byte-identical twin of another open document
                 docs[u] = text; ops.append({"op": "open", "uri": u, "text": text, "k": k}); npub[u] = npub.get(u, 0) + 1; ver[u] = 0    # versions start again with every open
                 continue
             c = .99   # otherwise read the closed document
@@ -110,7 +112,7 @@ def scenario(rng, nops, ndocs):
             docs[u] = None; ops.append({"op": "close", "uri": u})
         else:
             rid += 1
-            kind = rng.choice(["text", "text", "fold", "hover", "format", "semtok"])
+            kind = rng.choice(["text", "text", "fold", "hover", "format", "semtok", "refs"])
             if kind == "text": ops.append({"op": "read", "id": rid, "uri": u, "kind": "text", "expect": docs.get(u)})
             elif kind == "fold":
                 t = docs.get(u)
@@ -122,6 +124,12 @@ def scenario(rng, nops, ndocs):
                             e = next(x for x in range(j, len(ls)) if ls[x] == "}")
                             exp.append([j, e])
                 ops.append({"op": "read", "id": rid, "uri": u, "kind": "fold", "expect": exp})
+            elif kind == "refs":
+                # references of `helper`: every location has to lie in the document that was asked about (twins with identical text exist)
+                t = docs.get(u); pos = {"line": 0, "character": 0}
+                if t is not None:
+                    j = next((j for j, l in enumerate(t.split("\n")) if l.startswith("proc helper(")), 0); pos = {"line": j, "character": 6}
+                ops.append({"op": "read", "id": rid, "uri": u, "kind": "refs", "pos": pos, "expect": t is not None})
             elif kind in ("format", "semtok"):
                 # expensive requests between cheap ones: answered in order, from the document as written so far
                 ops.append({"op": "read", "id": rid, "uri": u, "kind": kind, "expect": docs.get(u)})
@@ -144,6 +152,7 @@ def to_message(op):
     if op["kind"] == "format": return {"jsonrpc": "2.0", "id": op["id"], "method": "textDocument/formatting", "params": {"textDocument": {"uri": op["uri"]}, "options": {"tabSize": 4, "insertSpaces": True}}}
     if op["kind"] == "semtok": return {"jsonrpc": "2.0", "id": op["id"], "method": "textDocument/semanticTokens/full", "params": {"textDocument": {"uri": op["uri"]}}}
     if op["kind"] == "fold": return {"jsonrpc": "2.0", "id": op["id"], "method": "textDocument/foldingRange", "params": {"textDocument": {"uri": op["uri"]}}}
+    if op["kind"] == "refs": return {"jsonrpc": "2.0", "id": op["id"], "method": "textDocument/references", "params": {"textDocument": {"uri": op["uri"]}, "position": op["pos"], "context": {"includeDeclaration": True}}}
     return {"jsonrpc": "2.0", "id": op["id"], "method": "textDocument/hover", "params": {"textDocument": {"uri": op["uri"]}, "position": op["pos"]}}
 
 
@@ -259,6 +268,14 @@ def run_history(part, binpath, rng, nops, sc_seed):
                     want = sum(1 for k_, v_, a_, b_ in reflex.lex(t) if k_ in reflex.KEYWORDS or k_ in ("int", "hex", "char", "comment") or (k_ == "ident" and v_ != "undefinedproc"))
                     got_n = len(r.get("data", [])) // 5
                     if got_n != want: part.fail("%s: semanticTokens read %d of %s has %d tokens, the document written so far has %d classifiable tokens" % (what, op["id"], op["uri"], got_n, want), sc); return
+            elif op["kind"] == "refs":
+                if not op["expect"]:
+                    if r: part.fail("%s: references read %d answered %r for a closed document" % (what, op["id"], str(r)[:120]), sc); return
+                else:
+                    if not isinstance(r, list) or not r: part.fail("%s: references read %d of `helper` in %s answered %r" % (what, op["id"], op["uri"], r), sc); return
+                    foreign = sorted(set(x.get("uri") for x in r if x.get("uri") != op["uri"]))
+                    if foreign: part.fail("%s: references read %d of %s names locations in other documents: %r" % (what, op["id"], op["uri"], foreign), sc); return
+                    part.cnt("references_reads_with_all_locations_in_the_asked_document")
             elif op["kind"] == "fold":
                 got = [[x["startLine"], x["endLine"]] for x in (r or [])]
                 if got != op["expect"]: part.fail("%s: foldingRange read %d of %s returned %r, the writes sent before it imply %r" % (what, op["id"], op["uri"], got, op["expect"]), sc); return
